@@ -7,7 +7,7 @@ PROPERTY = "C18"
 RULE = (
     "BFS to fixpoint (depth 3) and, for 3 estimators, the FULL tree of 4-call histories over a reduced alphabet, over histories of fit(D)/transform(D)/fit_transform(D) (3-4 data sets each, one collection holding the same array object several times) on REAL "
     "estimators: PersistenceImager() / (pixel_size=0.5) / user kernel; PersistenceLandscaper(num_steps=5) "
-    "with none / start / stop / both fixed by the user, and (flatten=True, hom_deg=1). Every transition "
+    "with none / start / stop / both fixed by the user, and (flatten=True, hom_deg=1); landscaper histories also contain the user fixing / releasing a grid bound after construction (attribute assignment, set_params). Every transition "
     "is compared with a fresh estimator replaying the same history: transform repeatable and state-"
     "preserving; fit_transform == fit;transform (output and post-state); imager maps collections element "
     "by element; after any history ending in fit(D) the learned attributes equal those of fit(D) on a "
@@ -107,7 +107,20 @@ def ops_for(init):
     if init["cls"] == "imager":
         # the same protocol in pre-converted birth-persistence form (skew=False)
         ops += [[op, "I2", "noskew"] for op in ("fit", "transform", "fit_transform")]
+    else:
+        # the user fixes (or releases, None) a grid bound AFTER construction, by attribute assignment or
+        # through scikit-learn's set_params: from then on it is a parameter "the user fixed explicitly"
+        ops += [["set", "start", -1.0], ["set", "stop", 20.0], ["set_params", "start", -2.5], ["set", "stop", None]]
     return ops
+
+
+def user_kw(init, ops):
+    """Constructor keywords + what the user assigned later (reference model of the user-fixed parameters)."""
+    kw = dict(init["kw"])
+    for op in ops:
+        if op[0] in ("set", "set_params"):
+            kw[op[1]] = op[2]
+    return kw
 
 
 def pub(init, est):
@@ -175,6 +188,12 @@ def out_digest(o):
 
 
 def do(ctx, est, init, op, count=True):
+    if op[0] == "set":
+        setattr(est, op[1], op[2])
+        return None
+    if op[0] == "set_params":
+        est.set_params(**{op[1]: op[2]})
+        return None
     d = data_for(init, op[1])
     if count:
         ctx.trans()
@@ -190,8 +209,8 @@ def replay(ctx, init, ops):
     return est
 
 
-def learned_after_fit_fresh(ctx, init, op):
-    fresh = make(init)
+def learned_after_fit_fresh(ctx, init, op, ops=()):
+    fresh = make({"cls": init["cls"], "kw": user_kw(init, ops)})
     do(ctx, fresh, init, ["fit"] + list(op[1:]), count=False)
     return pub(init, fresh)
 
@@ -216,9 +235,12 @@ def run_history(case, ctx):
             if post[k] != initial[k]:
                 bad("user-param-overwritten", "%s changed a parameter the user fixed: %s" % (op[0], k), post[k], initial[k])
         if cls == "landscaper":
+            ukw = user_kw(init, ops)
             for k in ("start", "stop"):
-                if init["kw"].get(k) is not None and post[k] != float(init["kw"][k]):
-                    bad("user-param-overwritten", "%s changed the user-fixed %s" % (op[0], k), post[k], init["kw"][k])
+                if ukw.get(k) is not None and post[k] != float(ukw[k]):
+                    bad("user-param-overwritten", "%s changed the user-fixed %s" % (op[0], k), post[k], ukw[k])
+        if op[0] in ("set", "set_params"):
+            continue
         if op[0] == "transform":
             # repeatable, does not alter the fitted state
             ctx.valid(2)
@@ -247,7 +269,7 @@ def run_history(case, ctx):
                         bad("image-shape", "image shape differs from the resolution", list(np.asarray(out).shape), post["resolution"])
         if op[0] in ("fit", "fit_transform"):
             # differential oracle: what a fit learns depends only on the last fit's data
-            want = learned_after_fit_fresh(ctx, init, op)
+            want = learned_after_fit_fresh(ctx, init, op, ops)
             ctx.valid()
             if any(o[0] in ("fit", "fit_transform") and o[1:] != op[1:] for o in ops[:-1]):
                 ctx.nontriv("refit_on_different_data")
